@@ -112,12 +112,51 @@ def c03_cases(h, rng, n):
             seq = (seq + 1) & 15
         sid = "c03_s_%d" % i
         out.append(Case(sid, script_text(sid, "outstation", cfg, ops), {"kind": "session", "cfg": cfg, "events": nev}))
+    # event series that need several fragments: the confirm of fragment k must release fragment k only
+    for i in range(max(4, n // 6)):
+        cfg = {"unsol": 0, "soltx": 249, "evbuf": 200, "confirm_ms": 1000, "sel": 0, "op": 0, "decode": rng.below(4)}
+        ops = [("add", "binary", 0, 1), ("add", "binary", 1, 2)]
+        nev = rng.range(90, 180)
+        vals = [0, 0]
+        for k in range(nev):
+            j = k & 1; vals[j] ^= 1
+            ops.append(("update", "binary", j, str(vals[j]), 1, 1000 + k))
+        seq = rng.below(16)
+        for rnd in range(rng.range(1, 3)):
+            ops.append(("rx", MASTER, "none", hexs(frag(seq, FN["read"], read_classes((1, 2, 3))))))
+            ops.append(("rx", MASTER, "none", hexs(frag(seq, FN["confirm"]))))
+            end = rng.below(4)
+            if end == 0: ops.append(("sleep", 1001))
+            elif end == 1: ops.append(("rx", MASTER, "none", hexs(frag((seq + 5) & 15, FN["delay"]))))
+            elif end == 2: ops.append(("disconnect",))
+            else: ops.append(("rx", MASTER, "none", hexs(frag((seq + 1) & 15, FN["confirm"]))))
+            seq = (seq + 2) & 15
+        ops.append(("sleep", 3000))
+        for _ in range(8):
+            ops.append(("rx", MASTER, "none", hexs(frag(seq, FN["read"], read_classes((1, 2, 3))))))
+            for k in range(4):
+                ops.append(("rx", MASTER, "none", hexs(frag((seq + k) & 15, FN["confirm"]))))
+            seq = (seq + 4) & 15
+        sid = "c03_m_%d" % i
+        out.append(Case(sid, script_text(sid, "outstation", cfg, ops), {"kind": "session-series", "cfg": cfg, "events": nev}))
     return out
+
+
+def _events_in(body_hex):
+    import dbcommon as D
+    try:
+        ev, _ = D.decode_response(bytes.fromhex(body_hex) if body_hex != "-" else b"")
+        return len(ev)
+    except Exception:
+        return None
 
 
 def c03_oracle(h, case, impl):
     fails = []
     cleared = []
+    awaiting = 0          # events carried by the fragment that awaits confirmation
+    confirmed_count = None
+    counting = None
     confirmed_pending = False      # a confirm was accepted and the release belonging to it may follow
     carried_unconfirmed = False    # a response with events is outstanding or ended unconfirmed without reset
     for op, t, lines in split_steps(impl):
@@ -127,7 +166,22 @@ def c03_oracle(h, case, impl):
                 if len(tk) == 2 and tk[1].startswith("session-end"):
                     pass
                 continue
+            if tk[1] == ">" and tk[2] == "write":
+                n = _events_in(tk[5]) if len(tk) > 5 else 0
+                awaiting = n if n is not None else awaiting
+            if tk[1] == ">" and tk[2] == "unsol" and tk[3] != "0":
+                n = _events_in(tk[4]) if len(tk) > 4 else 0
+                awaiting = n if n is not None else awaiting
+            if tk[1] == "db" and tk[2] == "clear_written":
+                counting = 0
+            if tk[1] == ">" and tk[2] == "cb" and tk[3] == "event_cleared" and counting is not None:
+                counting += 1
+            if tk[1] == ">" and tk[2] == "cb" and tk[3] == "end_confirm" and counting is not None:
+                if confirmed_count is not None and counting != confirmed_count:
+                    fails.append(("released-more-than-confirmed", "a confirm released %d events but the confirmed fragment carried %d" % (counting, confirmed_count)))
+                counting = None; confirmed_count = None
             if tk[1] == "info" and tk[2] in ("sol_confirmed", "unsol_confirmed"):
+                confirmed_count = awaiting; awaiting = 0
                 confirmed_pending = True
             elif tk[1] == "db" and tk[2] == "clear_written":
                 if not confirmed_pending:
@@ -252,12 +306,15 @@ def c11_cases(h, rng, n):
         if rng.chance(1, 2):
             ops.append(("update", "analog", 0, "7", 1, 10))
         seq = rng.below(16)
+        slow = rng.chance(1, 4)    # a slow master: every confirm in time, the series as a whole longer than one timeout
         req = frag(seq, FN["read"], read_classes(rng.choice([(0,), (1, 2, 3, 0), (0, 1)])))
         ops.append(("rx", MASTER, "none", hexs(req)))
         s = seq
         for k in range(rng.range(0, 6)):
             a = rng.below(10)
-            if a < 5:
+            if slow:
+                ops.append(("sleep", 600))
+            if a < 5 or slow:
                 ops.append(("rx", MASTER, "none", hexs(frag(s, FN["confirm"])))); s = (s + 1) & 15
             elif a == 5:
                 ops.append(("rx", MASTER, "none", hexs(frag((s + 2) & 15, FN["confirm"]))))
@@ -276,6 +333,7 @@ def c11_cases(h, rng, n):
 
 def c11_oracle(h, case, impl):
     fails = []
+    last_sol_tx = None
     series = None          # (next expected sequence, awaiting confirm of sequence)
     for op, t, lines in split_steps(impl):
         confirmed = None
@@ -288,12 +346,19 @@ def c11_oracle(h, case, impl):
                 continue
             if tk[1] == "info" and tk[2] == "sol_confirmed":
                 confirmed = int(tk[3])
-            elif tk[1] == "info" and tk[2] in ("sol_timeout", "sol_new_request"):
+            elif tk[1] == "info" and tk[2] == "sol_timeout":
+                if last_sol_tx is not None and int(tk[0]) - last_sol_tx < int(case.meta.get("cfg", {}).get("confirm_ms", 5000)):
+                    fails.append(("series-timeout-early", "confirm timeout reported %d ms after the fragment was sent, configured %s ms"
+                                  % (int(tk[0]) - last_sol_tx, case.meta.get("cfg", {}).get("confirm_ms"))))
+                series = None
+            elif tk[1] == "info" and tk[2] == "sol_new_request":
                 series = None
             elif tk[1] == ">" and tk[2] == "write":
                 last_write = (tk[3] == "1", tk[4] == "1")
             elif tk[1] == "tx":
                 b = bytes.fromhex(tk[3])
+                if len(b) >= 4 and b[1] == 129:
+                    last_sol_tx = int(tk[0])
                 if len(b) < 4 or b[1] != 129 or last_write is None:
                     last_write = None
                     continue
